@@ -277,6 +277,8 @@ func (g *genState) writeOp() {
 		word := "insert"
 		if g.r.Chance(g.weight(8, "C06", 5)) {
 			word = "insertw" // InsertWatch: the channel closes when that object is next changed
+		} else if g.r.Chance(6) {
+			word = "ainsert" // through statedb.AnyTable
 		}
 		g.emit("%s %d %s", word, tab, g.objArgs(o))
 		g.sh.modify(tab, "insert", 0, o, g.open)
@@ -291,7 +293,11 @@ func (g *genState) writeOp() {
 		g.sh.modify(tab, "cas", gd, o, g.open)
 	case x < wDel:
 		id := g.pickID()
-		g.emit("delete %d %s", tab, hx.Hex(id))
+		word := "delete"
+		if g.r.Chance(6) {
+			word = "adelete" // through statedb.AnyTable
+		}
+		g.emit("%s %d %s", word, tab, hx.Hex(id))
 		g.sh.delete(tab, false, 0, id, g.open)
 	case x < wCad:
 		id := g.pickID()
